@@ -697,7 +697,7 @@ pub fn c01(args: &Args) {
         return;
     }
     let seed = args.seed;
-    let n = args.pick(12_000, 1_500_000);
+    let n = args.pick(60_000, 3_000_000);
     run_cases(&mut report, n, args.threads, Duration::from_secs(args.pick(150, 3000)), |i| c01_case(seed, i, thorough, "C01", true, false));
     report.floor("scenarios", 1_000);
     report.floor("repair_exchanges_completed", 5_000);
@@ -718,7 +718,7 @@ pub fn c02_cluster(args: &Args) {
         return;
     }
     let seed = args.seed.wrapping_add(7_777);
-    let n = args.pick(6_000, 600_000);
+    let n = args.pick(20_000, 1_000_000);
     run_cases(&mut report, n, args.threads, Duration::from_secs(args.pick(100, 2000)), |i| c01_case(seed, i, thorough, "C02", false, true));
     report.floor("scenarios", 500);
     report.finish(args);
@@ -777,7 +777,7 @@ pub fn c08_cluster(args: &Args) {
         return;
     }
     let seed = args.seed;
-    let n = args.pick(1_500, 150_000);
+    let n = args.pick(3_000, 200_000);
     run_cases(&mut report, n, args.threads, Duration::from_secs(args.pick(150, 3000)), |i| c08_case(seed, i));
     report.floor("scenarios", 300);
     report.floor("tombstones_purged", 100);
@@ -1075,15 +1075,12 @@ pub fn c06(args: &Args) {
     let mut report = Report::new(
         args,
         "E2-cluster",
-        "real clusters in virtual time, layouts of 1-3 DCs x 1-3 nodes (thorough: all 39; quick: 9 of them), membership installed through the real watcher: for every issuer position x all 8 consistency levels x put/del/put_many/del_many x failure assignments for the other nodes (every subset for <= 5 others, rotating failure mode per node: remote storage error / request dropped / reply dropped). At the moment the call returns the issuer's and every peer's storage is read: Ok => the issuer holds the mutation (or a newer one) and at least need(L) other nodes do (0 / 1 / 2 / 3 / total/2 / local/2 / per-DC sum / all others); ConsistencyFailure{responses, required} => responses equals the acknowledgements the harness let through (selected AND request delivered AND remote storage succeeded AND reply not dropped; the selection is read off the policy log), responses < required, the local write is in storage, and after lifting the faults, two batch windows and one explicit pairwise anti-entropy round (bounded-progress restatement of 'still replicated later') every node holds it. A last phase lets a node join right after selections for every level were made (and cached by the selector actor) and writes again at every level: Ok must hold against the grown membership. NotEnoughNodes carries no claim here. Non-trivial: every call; distinct = distinct (layout, issuer, level, kind, failure assignment).",
+        "real clusters in virtual time, all 39 layouts of 1-3 DCs x 1-3 nodes, membership installed through the real watcher: for every issuer position x all 8 consistency levels x put/del/put_many/del_many x failure assignments for the other nodes (every subset for <= 5 others, rotating failure mode per node: remote storage error / request dropped / reply dropped). At the moment the call returns the issuer's and every peer's storage is read: Ok => the issuer holds the mutation (or a newer one) and at least need(L) other nodes do (0 / 1 / 2 / 3 / total/2 / local/2 / per-DC sum / all others); ConsistencyFailure{responses, required} => responses equals the acknowledgements the harness let through (selected AND request delivered AND remote storage succeeded AND reply not dropped; the selection is read off the policy log), responses < required, the local write is in storage, and after lifting the faults, two batch windows and one explicit pairwise anti-entropy round (bounded-progress restatement of 'still replicated later') every node holds it. A last phase lets a node join right after selections for every level were made (and cached by the selector actor) and writes again at every level: Ok must hold against the grown membership. NotEnoughNodes carries no claim here. Non-trivial: every call; distinct = distinct (layout, issuer, level, kind, failure assignment).",
     );
     let seed = args.seed;
     let all = c06_layouts(3, 3);
-    let layouts: Vec<Vec<usize>> = if args.tier == Tier::Thorough {
-        all
-    } else {
-        vec![vec![1], vec![2], vec![3], vec![1, 1], vec![2, 1], vec![1, 3], vec![2, 2], vec![1, 1, 1], vec![2, 1, 3]]
-    };
+    // all 39 layouts in both tiers (2 s); thorough repeats them with 8 seeds for the sampled parts
+    let layouts: Vec<Vec<usize>> = if args.tier == Tier::Thorough { (0..8).flat_map(|_| all.clone()).collect() } else { all };
     if let Some(path) = &args.replay {
         let r = read_replay(path);
         let layout: Vec<usize> = r["layout"].as_array().unwrap().iter().map(|v| v.as_u64().unwrap() as usize).collect();
@@ -1275,7 +1272,7 @@ pub fn c16_e2e(args: &Args) {
         return;
     }
     let seed = args.seed;
-    let n = args.pick(600, 40_000);
+    let n = args.pick(4_000, 200_000);
     run_cases(&mut report, n, args.threads, Duration::from_secs(args.pick(100, 1500)), |i| block_on_paused(c16_e2e_case(seed, i, i % 2 == 1)));
     report.floor("none_level_writes_followed", 200);
     report.floor("departures_followed", 200);
